@@ -7,6 +7,7 @@ From PSA Require Import model.Bytes model.Checksum model.Layer model.Dhcp model.
 From PSA Require Import gen.GoFacts model.Sanitize model.Resolv spec.SpecResolv.
 From PSA Require Import model.Config spec.SpecConfig.
 From PSA Require Import model.Client.
+From PSA Require Import spec.SpecClient model.ClientRx model.Tmpl.
 Open Scope N_scope.
 
 Definition arg (args : list (list N)) (i : nat) : list N := nth i args [].
@@ -404,6 +405,49 @@ Definition dispatch_c10 (tag : N) (a : LL) : LL :=
   | _ => [[99]]
   end.
 
+(* ---- C14: the client's receive filter; C16: the client's message templates ---- *)
+Definition dec_wkind (n : N) : wkind := match n with 0 => KOffer | 1 => KSelecting | 2 => KRenewing | _ => KRebinding end.
+(* [kind; xid; yiaddr; has_sid; sid] *)
+Definition dec_wait (l : list N) : wait :=
+  {| w_kind := dec_wkind (n0 l 0); w_xid := n0 l 1; w_yiaddr := n0 l 2; w_sid := optn (n0 l 3) (n0 l 4) |}.
+Definition enc_vstate (v : vstate) : N := match v with Failed => 0 | Passed => 1 | IsNack => 2 end.
+Definition enc_rx (x : rx) : LL :=
+  match x with
+  | RxIgnore => [[0]]
+  | RxAccept m o => [1] :: enc_decoded o ++ enc_dhcp m
+  | RxNack m o => [2] :: enc_decoded o ++ enc_dhcp m
+  | RxPanic => [[3]]
+  end.
+
+Definition dispatch_c14 (tag : N) (a : LL) : LL :=
+  match tag with
+  (* the verify functions: wait, [xid; yiaddr] of the message, then its options *)
+  | 1401 => let m := {| d_op := 2; d_htype := 1; d_hops := 0; d_xid := argn a 1 0; d_secs := 0; d_flags := 0; d_ciaddr := 0;
+                        d_yiaddr := argn a 1 1; d_siaddr := 0; d_giaddr := 0; d_chaddr := []; d_sname := []; d_file := [];
+                        d_cookie := 0; d_options := dec_dopts (skipn 2 a) |} in
+            [[enc_vstate (verifier (dec_wait (arg a 0)) m (decode_options (d_options m)))]]
+  (* catchReply on one packet: wait, own hardware address, packet *)
+  | 1402 => enc_rx (catch_reply (arg a 1) (dec_wait (arg a 0)) (arg a 2))
+  (* catchReply on a sequence of packets: index of the packet that ended the loop, and how *)
+  | 1403 => let (i, x) := catch_loop (arg a 1) (dec_wait (arg a 0)) (skipn 2 a) in [i] :: enc_rx x
+  (* monitors: the specification evaluated on the same inputs *)
+  | 1410 => [[b2n (spec_accept (arg a 1) (dec_wait (arg a 0)) (arg a 2))]]
+  | 1411 => [[b2n (spec_nack (arg a 1) (dec_wait (arg a 0)) (arg a 2))]]
+  | _ => [[99]]
+  end.
+
+Definition dec_rkind (n : N) : rkind := match n with 0 => RDiscover | 1 => RSelecting | 2 => RRenewing | _ => RRebinding end.
+
+Definition dispatch_c16 (tag : N) (a : LL) : LL :=
+  match tag with
+  (* [kind; xid; ip id; leased; server], hardware address *)
+  | 1601 => enc_res (request_for (dec_rkind (argn a 0 0)) (argn a 0 1) (argn a 0 2) (arg a 1) (argn a 0 3) (argn a 0 4)) (fun b => [b])
+  | 1602 => [[crc32_ieee (arg a 0)]]
+  (* monitor: [kind; leased; server], hardware address, the implementation's packet *)
+  | 1610 => [[b2n (wellformed_for (dec_rkind (argn a 0 0)) (arg a 1) (argn a 0 1) (argn a 0 2) (arg a 2))]]
+  | _ => [[99]]
+  end.
+
 Definition dispatch (tag : N) (a : list (list N)) : list (list N) :=
   if (1300 <=? tag) && (tag <? 1400) then dispatch_c13 tag a
   else if (1200 <=? tag) && (tag <? 1300) then dispatch_c12 tag a
@@ -413,4 +457,6 @@ Definition dispatch (tag : N) (a : list (list N)) : list (list N) :=
   else if (1800 <=? tag) && (tag <? 1900) then dispatch_c18 tag a
   else if (1000 <=? tag) && (tag <? 1100) then dispatch_c10 tag a
   else if (1500 <=? tag) && (tag <? 1600) then dispatch_c15 tag a
+  else if (1400 <=? tag) && (tag <? 1500) then dispatch_c14 tag a
+  else if (1600 <=? tag) && (tag <? 1700) then dispatch_c16 tag a
   else [[99]].
